@@ -20,6 +20,13 @@ use rng::Rng;
 use std::sync::mpsc;
 use std::sync::Arc;
 
+fn hash_of<T: std::hash::Hash + ?Sized>(t: &T) -> u64 {
+    use std::hash::Hasher as _;
+    let mut h = std::collections::hash_map::DefaultHasher::new();
+    t.hash(&mut h);
+    h.finish()
+}
+
 fn fail(msg: String) -> ! {
     eprintln!("MIRI-TIER-VIOLATION {msg}");
     std::process::exit(17)
@@ -80,7 +87,7 @@ fn c30_free(seed: u64) {
             let mut arcs: Vec<Arc<str>> = vec![];
             let n_ops = rng.range(6, 14);
             for _ in 0..n_ops {
-                match rng.below(10) {
+                match rng.below(12) {
                     0 | 1 => local.push(shared[rng.usize(shared.len())].clone()),
                     2 => local.push(Name::from_arc_unchecked(witness[rng.usize(3)].clone())),
                     3 => {
@@ -123,6 +130,19 @@ fn c30_free(seed: u64) {
                             fail(format!("class=node_value clone reads {before}"));
                         }
                         node.make_mut().value = 1000 + t as u64;
+                        // equal payloads hash equally, whatever was cached or copied on the way
+                        let fresh = Node::new(c30ops::Tracked::new(1000 + t as u64));
+                        if hash_of(&node) != hash_of(&fresh) || node != fresh {
+                            fail(format!("class=node_eq_hash_ptr_eq a node mutated through make_mut hashes / compares unlike a fresh node with the same payload"));
+                        }
+                    }
+                    9 => {
+                        // hash a clone that may still share its allocation with the other threads'
+                        let h = hash_of(&node);
+                        let fresh = Node::new(c30ops::Tracked::new(node.value));
+                        if h != hash_of(&fresh) {
+                            fail(format!("class=node_eq_hash_ptr_eq a shared node hashes unlike a fresh node with the same payload"));
+                        }
                     }
                     _ => {
                         local.pop();
